@@ -1,4 +1,5 @@
-"""CAS rule set (thorough tier): result blocks of the rolling kernels and one-pass aggregates."""
+"""CAS rule set (both tiers): result blocks of the rolling kernels and one-pass aggregates."""
+import re
 import cas
 import acc
 from algebra import Poly, Env, norm, read_block
@@ -10,14 +11,41 @@ RULE = ('the closed form in the result block equals the reference formula over t
         'structure only)')
 
 
+ROLE1 = {'1': 'n', 'NEW0': 'sum', 'NEW0^2': 'sum2', 'NEW0^3': 'sum3', 'NEW0^4': 'sum4', 'NEW0*n': 'sum_xt'}
+ROLE2 = {'1': 'n', 'NEW0': 'sum_a', 'NEW1': 'sum_b', 'NEW0*NEW1': 'sum_ab', 'NEW0^2': 'sum2_a',
+         'NEW1^2': 'sum2_b'}
+
+
+def acc_roles(m):
+    """accumulator local -> the reference formulas' name for what it accumulates (by its add
+    update: count, power sums, cross sums, time-weighted sum), independent of source names"""
+    m.classify()
+    accs = m.accumulators()
+    n_id = acc.count_acc(m)
+    n_name = accs[n_id]['name'] if n_id is not None else None
+    table = ROLE2 if m.k.two else ROLE1
+    out = {}
+    for lid, a in accs.items():
+        for u in a['updates']:
+            if u.block == 'add' and getattr(u, 'poly', None) is not None and u.op == 'AddAssign':
+                d = u.poly.show()
+                if n_name:
+                    d = re.sub(r'\b%s\b' % re.escape(n_name), 'n', d)
+                if d in table:
+                    out[lid] = table[d]
+    return out
+
+
 def kernel_leaves(m):
     gf = acc.gate_form(m)
     n_id = acc.count_acc(m)
+    roles = acc_roles(m)
     out = []
     for e, g in acc.result_leaves(m, n_id, gf['local']):
         if acc.is_null_literal(e):
             continue
-        p = norm(e, acc._env_at(m, e))
+        env_ = acc._env_at(m, e, roles)
+        p = norm(e, env_)
         if p.is_const():
             continue        # variance floor / degenerate branch
         out.append((e, p))
@@ -85,20 +113,76 @@ def check_rolling(run, F, files):
     return len(jobs)
 
 
+def _agg_roles(fn):
+    """locals of a one-pass moment aggregation by role: the counting helper's result is `n`;
+    a variable the helper's closure advances by X^k (X the element) is the raw k-th power
+    sum.  Returns (names, index of the helper's let in the body)"""
+    from aggrules import COUNT_HELPERS
+    from facts import callee_is
+    names, at = {}, None
+    for i, st in enumerate(fn.hir.get('stmts', [])):
+        if st['k'] != 'Let' or 'init' not in st or st['pat'].get('k') != 'Binding':
+            continue
+        init = peel(st['init'])
+        if init.get('k') != 'MethodCall' or not callee_is(init, *COUNT_HELPERS):
+            continue
+        cl = [peel(a) for a in init['ch'] if peel(a).get('k') == 'Closure']
+        if len(cl) != 1:
+            continue
+        names[st['pat']['local']] = 'n'
+        at = i
+        cl = cl[0]
+        env = Env()
+        for prm in cl.get('params', []):
+            if prm.get('k') == 'Binding':
+                env.name(prm['local'], 'X')
+        body = peel(cl['ch'][0])
+        stmts = list(body.get('stmts', []))
+        if 'expr' in body:
+            stmts.append({'k': 'Semi', 'e': body['expr']})
+        for s_ in stmts:
+            x = peel(s_.get('e', {})) if s_['k'] in ('Semi', 'Expr') else None
+            if x is not None and x.get('k') in ('AssignOp', 'Assign') and \
+                    peel(x['ch'][0]).get('res') == 'local':
+                tg = peel(x['ch'][0])
+                rhs = norm(x['ch'][1], env)
+                me = Poly.atom(('sym', env.sym_of.get(tg['local'], tg['name'])))
+                if x['k'] == 'Assign':
+                    d = rhs - me
+                elif x.get('op') == 'AddAssign':
+                    d = rhs
+                else:
+                    continue
+                mm = re.fullmatch(r'X(?:\^(\d))?', d.show())
+                if mm:
+                    names[tg['local']] = 'm%s' % (mm.group(1) or '1')
+            else:
+                read_block({'stmts': [s_]}, env)
+    return names, at
+
+
 def check_aggs(run, F):
-    """vskew / vkurt one-pass formulas (raw sums m1..m4 normalised in place, then adjusted)."""
+    """vskew / vkurt one-pass formulas (raw power sums normalised in place, then adjusted).
+    Variables are found by role: the power sums by what the pass adds to them, the result by
+    being the function's value."""
     jobs, meta = [], {}
     for name in ('AggValidBasic::vskew', 'AggValidExt::vkurt'):
         fn = F.one(name)
         body = fn.hir
         stmts = body.get('stmts', [])
-        idx = [i for i, st in enumerate(stmts) if st['k'] == 'Let' and st['pat'].get('name') == 'res']
-        ok_shape = len(idx) == 1
+        names, at = _agg_roles(fn)
+        tail = peel(body.get('expr', {}))
+        res_local = tail.get('local') if tail.get('k') == 'Path' and tail.get('res') == 'local' else None
+        idx = [i for i, st in enumerate(stmts) if st['k'] == 'Let' and st['pat'].get('k') == 'Binding'
+               and st['pat'].get('local') == res_local and 'init' in st]
+        ok_shape = len(idx) == 1 and at is not None and at < idx[0]
         final = None
         where = fn.hir
         if ok_shape:
             st = stmts[idx[0]]
             env = Env()
+            for lid, nm in names.items():
+                env.name(lid, nm)
             read_block({'stmts': stmts[:idx[0]]}, env)
             iff = peel(st['init'])
             main = peel(iff['ch'][1]) if iff.get('k') == 'If' else None
@@ -110,12 +194,12 @@ def check_aggs(run, F):
                 branch = peel(inner[0]['ch'][2])
                 read_block({'stmts': branch.get('stmts', [])}, env)
                 value = norm(branch['expr'], env)
-                res_local = st['pat']['local']
                 env.vals[res_local] = value
                 env.killed.discard(res_local)
                 # the adjustment `if res.not_none() && res != 0. { … }`
                 adj = [peel(x.get('e', {})) for x in stmts[idx[0] + 1:] if x['k'] in ('Expr', 'Semi')]
-                adj = [a for a in adj if a.get('k') == 'If' and 'res' in src(a['ch'][0])]
+                adj = [a for a in adj if a.get('k') == 'If' and
+                       any(y.get('k') == 'Path' and y.get('local') == res_local for y in walk(a['ch'][0]))]
                 if len(adj) != 1:
                     ok_shape = False
                 else:
